@@ -122,6 +122,9 @@ func calleeName(cc *ssa.CallCommon) string {
 	}
 	switch f := cc.Value.(type) {
 	case *ssa.Function:
+		if o := f.Origin(); o != nil {
+			f = o
+		}
 		if f.Pkg != nil && f.Signature.Recv() == nil {
 			return f.Pkg.Pkg.Name() + "." + f.Name()
 		}
